@@ -31,6 +31,9 @@ type TrackDef struct {
 type SegShape struct {
 	Frags [][]int `json:"frags"` // per track: samples per fragment
 	Date  bool    `json:"date"`  // segment carries EXT-X-PROGRAM-DATE-TIME
+	// DateSkewMs is added to the date-time of this segment: the wall clock of the origin server is
+	// not exactly the media clock (dates of successive segments are then not contiguous)
+	DateSkewMs int `json:"date_skew_ms,omitempty"`
 }
 
 // PlaylistDef is a media playlist with its media.
@@ -415,7 +418,7 @@ func buildPlaylist(def PlaylistDef, container, name string, base func(timescale 
 		durTicks := cur[bp.LeadTrack] - segStartLead
 		bp.SegDur = append(bp.SegDur, time.Duration(durTicks)*time.Second/time.Duration(ts))
 		if sg.Date {
-			ms := dateBase + (segStartLead-base(ts))*1000/int64(ts)
+			ms := dateBase + (segStartLead-base(ts))*1000/int64(ts) + int64(sg.DateSkewMs)
 			d := time.UnixMilli(ms).UTC()
 			bp.SegDate = append(bp.SegDate, &d)
 		} else {
